@@ -22,6 +22,7 @@ import (
 
 	"github.com/named-data/ndnd/fw/core"
 	"github.com/named-data/ndnd/fw/face"
+	"github.com/named-data/ndnd/fw/mgmt"
 	"github.com/named-data/ndnd/fw/table"
 	enc "github.com/named-data/ndnd/std/encoding"
 	"github.com/named-data/ndnd/std/log"
@@ -503,12 +504,37 @@ func setupTables(c Case) *tables {
 	cfg := core.DefaultConfig()
 	cfg.Tables.Fib.Hashtable.M = uint16(c.M)
 	cfg.Tables.Fib.Algorithm = c.Algo
+	// the real NLSR readvertiser (fw/mgmt/nlsr_readvertiser.go, an anchor of C16) is called by
+	// the RIB, under the RIB's mutex, for every route of client origin: it is registered by
+	// MakeMgmtThread when the configuration enables it. The management thread is not run; the
+	// register/unregister Interests the readvertiser emits are drained from an unstarted
+	// internal transport. (Seeded defect C16-r3-1, a mutex not released on one path of
+	// Withdraw, was invisible to the stand-in used before.)
+	cfg.Tables.Rib.ReadvertiseNlsr = true
 	core.LoadConfig(cfg, "")
 	table.VerifReset()
+	tr := face.MakeInternalTransport()
+	mgmt.VerifMakeThread(tr)
 	table.AddReadvertiser(nopReadvertiser{})
+	currentInternal.Store(tr)
+	drainOnce.Do(func() {
+		go func() {
+			for {
+				if t := currentInternal.Load(); t != nil {
+					t.VerifTakeSent()
+				}
+				time.Sleep(200 * time.Microsecond)
+			}
+		}()
+	})
 	table.CreateFIBTable(c.Algo)
 	return &tables{fib: table.FibStrategyTable}
 }
+
+var (
+	currentInternal atomic.Pointer[face.InternalTransport]
+	drainOnce       sync.Once
+)
 
 // ---------------------------------------------------------------------------- running a program once
 
